@@ -151,19 +151,20 @@ void DeleteChunk(ChunkList* NChunk, LargeWord DelStart, LargeWord DelLen) {
     }
 
     z = 0;
-    while (z <= NChunk->RealLen) {
+    while (z < NChunk->RealLen) {
         if (Overlap(DelStart, DelLen, NChunk->Chunks[z].Start,
                     NChunk->Chunks[z].Length)) {
             if (NChunk->Chunks[z].Start >= DelStart) {
                 if (DelStart + DelLen
                     >= NChunk->Chunks[z].Start + NChunk->Chunks[z].Length) {
-                    /* ganz loeschen */
+                    /* ganz loeschen; the entry moved here is looked at next */
                     NChunk->Chunks[z] = NChunk->Chunks[--NChunk->RealLen];
+                    continue;
                 } else {
                     /* unten abschneiden */
                     OStart                  = NChunk->Chunks[z].Start;
                     NChunk->Chunks[z].Start = DelStart + DelLen;
-                    NChunk->Chunks[z].Start -= NChunk->Chunks[z].Start - OStart;
+                    NChunk->Chunks[z].Length -= NChunk->Chunks[z].Start - OStart;
                 }
             } else if (
                     DelStart + DelLen
@@ -173,6 +174,7 @@ void DeleteChunk(ChunkList* NChunk, LargeWord DelStart, LargeWord DelLen) {
                 /* wenn Laenge 0, ganz loeschen */
                 if (NChunk->Chunks[z].Length == 0) {
                     NChunk->Chunks[z] = NChunk->Chunks[--NChunk->RealLen];
+                    continue;
                 }
             } else {
                 /* teilen */
@@ -182,6 +184,7 @@ void DeleteChunk(ChunkList* NChunk, LargeWord DelStart, LargeWord DelLen) {
                         = NChunk->Chunks[z].Start + NChunk->Chunks[z].Length
                           - NChunk->Chunks[NChunk->RealLen].Start;
                 NChunk->Chunks[z].Length = DelStart - NChunk->Chunks[z].Start;
+                NChunk->RealLen++;
             }
         }
         z++;
